@@ -625,8 +625,20 @@ func (i *interpreter) mapstructureDecode(fr *frame, src, dst iface) value {
 		return iface{} // nil input: nothing to do
 	}
 	sm := &symMap{n: dm.n, elem: mt.Elem()}
+	// what is left in the raw map: every member that was not deleted -- the E extra members and
+	// any DECLARED member the emitted code failed to delete (names the decode has touched)
+	var names []string
+	for name := range dm.n.kids {
+		if !strings.HasPrefix(name, "+") && !dm.deleted[name] {
+			names = append(names, name)
+		}
+	}
+	sortStrings(names)
 	for k := 0; k < x.docExtra(); k++ {
-		el := dm.n.child(fmt.Sprintf("+%d", k))
+		names = append(names, fmt.Sprintf("+%d", k))
+	}
+	for _, name := range names {
+		el := dm.n.child(name)
 		present := symNot(el.kindIs(kAbsent))
 		if !x.decide(present) {
 			continue
